@@ -412,6 +412,130 @@ def live_pyeq(job):
     return rows
 
 
+# ------------------------------------------------------------------------------------------------ export HISTORIES
+# Several exports in ONE interpreter over ExternalModule objects that are MUTATED in between (ExternalModule is a mutable
+# object: port_list is a list of mutable Signals; name, domain, spicetype, desc, paramtype are assignable).  Every design is
+# built AFTER the last mutation, from the objects as they then are (each instance connects every current port).  Reported per
+# observing step: the package with its round trip, and the state of every ExternalModule object read off its public
+# attributes at that moment.
+def mk_ext(x):
+    from vlsirtools import SpiceType
+    kw = dict(name=x["name"], port_list=[h.Signal(name=n, width=w, vis=h.signal.Visibility.PORT, direction=DIRS[d])
+                                        for n, w, d in x["ports"]])
+    if x.get("domain") is not None:
+        kw["domain"] = x["domain"]
+    if x.get("spicetype") is not None:
+        kw["spicetype"] = getattr(SpiceType, x["spicetype"])
+    if x.get("desc") is not None:
+        kw["desc"] = x["desc"]
+    if x.get("paramtype", "dict") == "dict":
+        kw["paramtype"] = dict
+    else:
+        kw["paramtype"] = mk_paramclass(x["name"] + "Params", x["fields"])
+    return h.ExternalModule(**kw)
+
+
+def obj_state(e):
+    return [e.domain or "", e.name, [[p.name, p.width, p.direction.name] for p in e.port_list], e.spicetype.name, e.desc,
+            "dict" if e.paramtype is dict else getattr(e.paramtype, "__name__", "?")]
+
+
+def mutate(e, op):
+    """one mutation of the ExternalModule object `e`, the way user code would write it"""
+    from vlsirtools import SpiceType
+    k = op[0]
+    mkp = lambda n, w, d: h.Signal(name=n, width=w, vis=h.signal.Visibility.PORT, direction=DIRS[d])
+    if k == "append":
+        e.port_list.append(mkp(*op[1]))
+    elif k == "insert":
+        e.port_list.insert(op[1], mkp(*op[2]))
+    elif k == "remove":
+        del e.port_list[op[1]]
+    elif k == "rename":          # in place, on the Signal object
+        e.port_list[op[1]].name = op[2]
+    elif k == "width":
+        e.port_list[op[1]].width = op[2]
+    elif k == "dir":
+        e.port_list[op[1]].direction = DIRS[op[2]]
+    elif k == "replace":         # another Signal object in the same place
+        e.port_list[op[1]] = mkp(*op[2])
+    elif k == "ports":           # a new list
+        e.port_list = [mkp(*p) for p in op[1]]
+    elif k == "reverse":
+        e.port_list.reverse()
+    elif k == "name":
+        e.name = op[1]
+    elif k == "domain":
+        e.domain = op[1]
+    elif k == "spicetype":
+        e.spicetype = getattr(SpiceType, op[1])
+    elif k == "desc":
+        e.desc = op[1]
+    elif k == "paramtype":
+        e.paramtype = dict if op[1] == "dict" else mk_paramclass(e.name + "Params2", op[2])
+    else:
+        raise ValueError(op)
+
+
+def build_mods(job, spec, exts, built_before):
+    """modules of one export step; spec["mods"] as in from_insts, `reuse`: [[step, index]] of modules built by earlier steps"""
+    built = []
+    for ms in spec["mods"]:
+        m = mk_module(job, ms["name"])
+        k = 0
+        for u in ms.get("uses", []):
+            m.add(built[u](), name=f"u{u}")
+        for st, ix in ms.get("reuse", []):
+            m.add(built_before[st][ix](), name=f"r{st}_{ix}")
+        for x in ms["insts"]:
+            params = {p: mk_value(v) for p, v in x["params"]}
+            e = exts[x["ext"]]
+            if e.paramtype is dict:
+                call = e(params)
+            else:
+                known = set(getattr(e.paramtype, "__dataclass_fields__", {}))
+                call = e(**{p: v for p, v in params.items() if p in known})
+            conns = {}
+            for pname, port in call.ports.items():
+                conns[pname] = m.add(h.Signal(name=f"n{k}", width=port.width))
+                k += 1
+            m.add(call(**conns), name=x["name"])
+        built.append(m)
+    return built
+
+
+def from_history(job):
+    import io
+    import hdl21.proto.exporting as EX
+    exts = [mk_ext(x) for x in job["exts"]]
+    built_at, out = {}, []
+    for si, step in enumerate(job["steps"]):
+        kind = step[0]
+        if kind == "mut":
+            mutate(exts[step[1]], step[2])
+            continue
+        rec = dict(step=si, kind=kind, objs=[obj_state(e) for e in exts], res=None, decl=None, err=None)
+        try:
+            if kind == "decl":           # the free function, as other code may call it
+                pm = EX.export_external_module(exts[step[1]])
+                rec["decl"] = pkg_json(vckt.Package(ext_modules=[pm]))["exts"][0]
+            else:
+                spec = step[1]
+                built = build_mods(job, spec, exts, built_at)
+                built_at[si] = built
+                tops = [built[k] for k in spec.get("tops") or [len(built) - 1]]
+                if kind == "netlist":    # an export whose package the caller never sees
+                    h.netlist(tops if len(tops) > 1 else tops[0], io.StringIO(), fmt=spec.get("fmt", "spice"))
+                    out.append(rec)
+                    continue
+                pkg = h.to_proto(tops if len(tops) > 1 else tops[0], domain=spec.get("domain"))
+                rec["res"] = roundtrip(pkg, top_names(pkg, tops))
+        except Exception as e:
+            rec["err"] = exc_info(e)
+        out.append(rec)
+    return out
+
+
 SOURCES = dict(design=from_design, example=from_examples, generator=from_generator, pdk=from_pdk, insts=from_insts)
 
 
@@ -438,6 +562,11 @@ def do_any(job):
             return dict(rows=live_pyeq(job), err=None)
         except Exception as e:
             return dict(rows=[], err=exc_info(e))
+    if job["source"] == "history":
+        try:
+            return dict(hist=from_history(job), err=None)
+        except Exception as e:
+            return dict(hist=[], err=exc_info(e))
     if job["source"] == "names":
         return dict(rows=[[s, s.split("."), ".".join(s.split("."))] for s in job["names"]], err=None)
     return do(job)
